@@ -34,6 +34,25 @@ def queries(rng, kind, size, fill):
     return out
 
 
+def big_script(rng, kind, size):
+    """a short history on a large ring: bulk writes / reads / head and tail moves of tens of thousands of bytes, so that the
+    indices pass 2^15 and 2^16 and wrap around the end"""
+    cap = size - 1; fill = 0
+    lines = ["R %s %d" % (kind, size)]
+    def data(n, base):
+        return fmt_list([(base + j * 7) % 251 + 1 for j in range(n)])
+    for step in range(10):
+        n = rng.choice([cap - fill, (cap - fill) // 2, min(cap - fill, 30000), min(cap - fill, 40000)])
+        if step % 2 == 0:
+            lines.append("Write %s" % data(n, step)); fill += n
+        else:
+            lines.append("MoveHead %s" % data(n, step)); fill += n
+        k = rng.choice([fill, fill // 2, min(fill, 30000), min(fill, 33000)])
+        lines.append("Read %d" % k if step % 3 else "MoveTail %d" % k); fill -= k
+        lines.append("Putc %d" % (step + 1)); fill = min(cap, fill + 1)
+    return lines
+
+
 def random_script(rng, kind, size, nops, full_bytes=True):
     cap = size - 1
     fill = 0
@@ -122,6 +141,9 @@ def check(ctx):
     # a few rings around the 8-bit boundary (indices and counts that do not fit a byte)
     for i in range(24 if ctx.thorough else 6):
         rnd += random_script(ctx.rng, kinds[i % 3], [255, 256, 257, 258, 300, 511][i % 6], 40)
+    # a few rings around the 15/16-bit boundaries: indices and bulk moves that do not fit 16 bits (few operations, large bulk counts)
+    for i, size in enumerate([32767, 32769, 50000, 65535, 65536, 65537, 70000][: (7 if ctx.thorough else 4) ] if ctx.thorough else [32769, 50000, 65536, 70000]):
+        rnd += big_script(ctx.rng, kinds[i % 3], size)
     # 4. run the real code
     t1 = ctx.drive(drv, script, "ring_cover")
     t2 = ctx.drive(drv, rnd, "ring_random")
@@ -190,7 +212,7 @@ def events_to_script(evs):
     for e in evs:
         n = e["e"]
         if n == "Reset":
-            out.append("R %s %d" % (e["kind"], e["size"]))
+            out.append("R %s %d" % (e["kind"], e.get("req", e["size"])))
         elif n in ("Putc",):
             out.append("Putc %d" % e["b"])
         elif n in ("Write", "MoveHead"):
